@@ -114,6 +114,10 @@ def gen_graph(rng: random.Random, dmx, *, unicode=False, time_ok=True, size=None
                 val = [gen_value(rng, vt, dmx, unicode) for _ in range(rng.choice([0, 1, 2, 3]))] if is_arr \
                     else gen_value(rng, vt, dmx, unicode)
             e[nm] = dmx.Attribute(nm, vt, val)
+    # elements whose optional `name` attribute was removed (it then reads as '')
+    for e in elems:
+        if rng.random() < 0.15:
+            del e['name']
     # make everything reachable from the root: link unreachable elements from a reachable one
     reach = set()
 
